@@ -91,3 +91,6 @@ func BytesEqual(a, b []byte) bool {
 func And(a, b bool) bool     { return a && b }
 func Or(a, b bool) bool      { return a || b }
 func Implies(a, b bool) bool { return !a || b }
+
+// UFBytes64 is an injective uninterpreted function from strings to 8 bytes (a collision-free hash).
+func UFBytes64(fn string, s string) []byte { return make([]byte, 8) }
